@@ -120,8 +120,29 @@ def gen_tree(rng, with_banks=False):
 
 def inject_fault(rng, prog):
     items = prog["items"]
-    kind = rng.choice(["duplicate", "skip-level", "undeclared", "undeclared-nested", "builtin-tail"])
+    kind = rng.choice(["duplicate", "skip-level", "undeclared", "undeclared-nested", "builtin-tail", "missing-component", "missing-component"])
     decl_idx = [i for i, it in enumerate(items) if it[0] in ("label", "const")]
+    if kind == "missing-component" and decl_idx:
+        # a dotted path whose non-final component does not exist although the rest of the path would resolve from
+        # the global scope (or from the enclosing scope): <existing prefix>.zz_missing.<declared path>
+        paths, cur = [], []
+        for it in items:
+            if it[0] in ("label", "const"):
+                cur = cur[:it[2]] + [it[1]]
+                paths.append(list(cur))
+        tail = rng.choice(paths)
+        head = rng.choice(paths)[:rng.randint(0, 2)]
+        i = rng.randint(0, len(items))
+        here = []
+        for it in items[:i]:
+            if it[0] in ("label", "const"):
+                here = here[:it[2]] + [it[1]]
+        level = rng.randint(0, len(here)) if rng.random() < 0.4 else 0
+        path = (head if level == 0 else []) + [rng.choice(["zz_missing", "nope", "q"])] + tail
+        if level == 0 and not head and rng.random() < 0.5:
+            path = [tail[0], "zz_missing"] + tail
+        items.insert(i, ("data", 16, [("sshort", ("var", level, path), num(16))]))
+        return kind
     if kind == "duplicate" and decl_idx:
         i = rng.choice(decl_idx)
         it = items[i]
